@@ -30,7 +30,9 @@ static std::string g_prop = "C05"; // "C03": the same driver run for the poisoni
 
 // POISON: the policy has poison/unpoison/unpoison_expand callbacks (each one a scheduling point) and keeps a byte shadow
 // GEOM 0: 4K slabs, classes 8..128 (classes run empty at once); GEOM 1: 32K slabs, classes 8..8192 (size classes of a page and more)
-template<bool POISON, int GEOM = 0>
+static thread_local const char *t_trace_kinds = "af"; // which trace records the pool call in progress on this thread may write
+static uint64_t g_trace_records = 0;
+template<bool POISON, int GEOM>
 struct SPolicyT {
 	static constexpr bool poisoning = POISON;
 	static constexpr size_t pagesize = 0x1000, slabsize = GEOM ? 0x8000 : 0x1000, sb_size = GEOM ? 0x8000 : 0x1000;
@@ -62,6 +64,25 @@ struct SPolicyT {
 	void poison(void *p, size_t n) requires POISON { sched::yield_point("policy.poison", n); shade(p, n, 1, "poison"); }
 	void unpoison(void *p, size_t n) requires POISON { if(n > sizeof(void *)) sched::yield_point("policy.unpoison", n); shade(p, n, 0, "unpoison"); } // (the per-object link-word calls of slab construction are no scheduling points: 62 of them per slab would only blow up the schedule space)
 	void unpoison_expand(void *p, size_t n) requires POISON { sched::yield_point("policy.unpoison_expand", n); shade(p, n, 0, "unpoison_expand"); }
+#ifdef C05_TRACE_HOOKS
+	// the optional allocation-trace hooks (the pool then compiles its tracing code in): walk_stack and output_trace are scheduling
+	// points; every record must be made of the calling worker's own data: its kind of call, its frames, the framing
+	bool enable_trace() { return true; }
+	template<typename F> void walk_stack(F f) { sched::yield_point("policy.walk_stack", 0); uintptr_t me = (uintptr_t)(sched::t_me + 1); for(uintptr_t i = 0; i < 3; i++) f((me << 12) + i); sched::yield_point("policy.walk_stack.done", 0); }
+	void output_trace(void *buffer, size_t n) {
+		sched::yield_point("policy.output_trace", n);
+		auto *b = (const uint8_t *)buffer; uintptr_t me = (uintptr_t)(sched::t_me + 1);
+		auto word = [&](size_t off) { uint64_t w = 0; for(int i = 0; i < 8; i++) w |= (uint64_t)b[off + i] << (8 * i); return w; };
+		std::string why;
+		size_t hdr = n >= 1 && b[0] == 'a' ? 17 : 9;
+		if(n < hdr + 8 || (b[0] != 'a' && b[0] != 'f')) why = "a record without the documented framing";
+		else if(!strchr(t_trace_kinds, b[0])) why = strf("a '%c' record written during a call that cannot produce one", b[0]);
+		else if(word(n - 8) != 0xA5A5A5A5A5A5A5A5ull) why = "a record without the 0xA5 terminator";
+		else for(size_t off = hdr; off + 8 <= n - 8; off += 8) if((word(off) >> 12) != me) { why = strf("a record with a stack frame that walk_stack() gave to worker %llu", (unsigned long long)(word(off) >> 12) - 1); break; }
+		if(!why.empty() && !g_ps->bad) { g_ps->bad = true; g_ps->why = "trace-record-mixed|output_trace() of worker " + std::to_string(sched::t_me) + " received " + why; }
+		g_trace_records++;
+	}
+#endif
 	void unmap(uintptr_t base, size_t len) {
 		no_lock("unmap");
 		sched::yield_point("policy.unmap", len);
@@ -110,7 +131,9 @@ struct Ctx {
 	uint64_t serial = 0;
 	void *do_alloc(int me, size_t n, const char *how = "allocate", void *old = nullptr, size_t old_req = 0) {
 		t_map_failed = false;
+		t_trace_kinds = old ? "af" : "a";
 		void *p = old ? pool->realloc(old, n) : pool->allocate(n);
+		t_trace_kinds = "af";
 		if(!p && t_map_failed) { count("calls_that_returned_null_after_an_injected_map_failure"); if(old) { /* the source stays valid and live */ Block b{old_req, pool->get_size(old), ++serial * 0x9E3779B97F4A7C15ull, me}; /* still the block of the original request */ mon.live[(uintptr_t)old] = b; for(size_t i = 0; i < owned(b); i++) ((uint8_t *)old)[i] = pat_byte(b.pat, i); return old; } return nullptr; }
 		if(!p) { mon.fail("null", strf("%s(%zu) returned null although no map() call of this worker failed", how, n)); return nullptr; }
 		uintptr_t a = (uintptr_t)p; size_t s = pool->get_size(p);
@@ -139,7 +162,9 @@ struct Ctx {
 	void do_free(void *p, bool dealloc) {
 		size_t req = mon.live.count((uintptr_t)p) ? mon.live[(uintptr_t)p].req : 0;
 		if(!check_and_forget(p, "at free")) return;
+		t_trace_kinds = "f";
 		if(dealloc) pool->deallocate(p, req); else pool->free(p);
+		t_trace_kinds = "af";
 		mon.frees++;
 	}
 };
@@ -291,5 +316,6 @@ int main(int argc, char **argv) {
 		}
 	}
 	sample("dfs:both-find-class-empty: fresh pool; w0: alloc(64), free || w1: alloc(64), free; both find the 64-byte class without a slab, drop the bucket lock, call Policy::map and re-take the lock to attach their slab; all schedules with <= 3 preemptions");
+	if(g_trace_records) count("policy_trace_records", g_trace_records);
 	return finish();
 }
